@@ -75,6 +75,10 @@ func main() {
 		}
 		return
 	}
+	if *dump == "calledges" {
+		dumpCallEdges(P)
+		return
+	}
 	if *dump == "returnvalues" {
 		dumpReturnValues(P)
 		return
